@@ -88,6 +88,7 @@ type CertSpec struct {
 	CRLDP       []string
 	NoKeyUsage  bool
 	LeafIsCA    bool
+	DNSNames    []string
 }
 
 type Chain struct {
@@ -140,6 +141,7 @@ func NewChain(specs []CertSpec) *Chain {
 				tmpl.ExtraExtensions = append(tmpl.ExtraExtensions, pkix.Extension{Id: asn1.ObjectIdentifier{2, 5, 29, 37}, Critical: true, Value: val})
 			}
 			tmpl.CRLDistributionPoints = cs.CRLDP
+			tmpl.DNSNames = cs.DNSNames
 		} else {
 			tmpl.IsCA = true
 			tmpl.KeyUsage = x509.KeyUsageCertSign | x509.KeyUsageCRLSign
